@@ -18,6 +18,7 @@ ASSUMPTIONS = ['torch is the trusted base for dense semantics', 'operands of dif
                'IEEE-special defaults: operations that do arithmetic on the default with Python math are judged only for '
                'defaults where Python and IEEE agree (listed per operation in the check source)']
 CHUNK = 2
+CASE_TIMEOUT_S = 300.0     # a case is a block of patterns x all partners x default pairs x ~30 operations
 inf, nan = math.inf, math.nan
 DEFAULTS = (0., 1., 5., -inf, inf, nan)
 
@@ -33,8 +34,8 @@ def gen_cases(tier, seed):
         yield ('U', i)
     for i, tt in enumerate(cat):
         n = len(cat[tt])
-        for lo in range(0, n, 4):
-            yield ('B', i, lo, min(n, lo + 4))
+        for lo in range(0, n, 2):
+            yield ('B', i, lo, min(n, lo + 2))
     cat2 = P.catalogue(2, 2, 12, P.TYPES_SMALL)
     for i, tt in enumerate(cat2):
         yield ('C', i)
@@ -153,6 +154,11 @@ def binary_ops():
         ('where-cond-not', lambda a, b: a.where(b.gt(3.).logical_not(), b), lambda x, y: x.where(y.gt(3.).logical_not(), y), ANY2),
         ('stack0', lambda a, b: stack([a, b], 0), lambda x, y: torch.stack([x, y], 0), lambda a, b: a == b or (a != a and b != b)),
         ('stack-1', lambda a, b: stack([a, b], -1), lambda x, y: torch.stack([x, y], -1), lambda a, b: a == b or (a != a and b != b)),
+        ('bcast-row-left', lambda a, b: a[0].add(b), lambda x, y: x[0] + y, lambda a, b: True),
+        ('bcast-row-right', lambda a, b: a.mul(b[0]), lambda x, y: x * y[0], lambda a, b: True),
+        ('bcast-row-left-sub', lambda a, b: a[len(a) - 1].sub(b), lambda x, y: x[-1] - y, lambda a, b: True),
+        ('bcast-unit-left', lambda a, b: a[0].unsqueeze(0).maximum(b), lambda x, y: torch.maximum(x[0].unsqueeze(0), y), lambda a, b: a == a and b == b),
+        ('bcast-where', lambda a, b: a[0].where(b.gt(3.), b), lambda x, y: x[0].where(y.gt(3.), y), lambda a, b: True),
         ('expand_as', lambda a, b: a.unsqueeze(0).expand_as(b.unsqueeze(0).expand(3, *b.size())), lambda x, y: x.unsqueeze(0).expand(3, *y.shape), ANY2),
     ]
     return ops
@@ -358,7 +364,12 @@ def one_binary(pa, pb, da, db, ops, r, extras):
         except ptinv.RepInvariantError as e:
             bad(r, 'representation-invariant', name, '%s: %s' % (desc, e), sub, key)
         except Warning as w:
-            bad(r, 'type-mismatch-warning', name, '%s: %s' % (desc, str(w)[:200]), sub, key)
+            if name.startswith('bcast'):
+                # a one-hot row produced by __getitem__ on a product-typed axis meets a product pattern: the library
+                # itself declares this an index type mismatch, i.e. outside the well-typed scope
+                r.excl['composition leaves the well-typed scope (library warning)'] += 1
+            else:
+                bad(r, 'type-mismatch-warning', name, '%s: %s' % (desc, str(w)[:200]), sub, key)
         except Exception as e:
             r.exc(e, name, sub, key, msg='%s: %s raised %s: %s' % (desc, name, type(e).__name__, str(e)[:200]))
     if not extras:
@@ -372,15 +383,25 @@ def one_binary(pa, pb, da, db, ops, r, extras):
             b = P.instantiate(pb, db, offset=3)
             x, y = a.to_dense(), b.to_dense()
             if name == 'x-copy_':
-                c = a.clone()
-                c.copy_(b)
-                okk = eqn(c.to_dense(), y) and eqn(b.to_dense(), y) and eqn(a.to_dense(), x)
-                if okk:
-                    # writing into the copy must not reach the source
-                    c.physical.add_(100.) if not c.physical.numel() == 0 else None
-                    okk = eqn(b.to_dense(), y)
+                okk = True
+                for dst_storage in ('clone', 'expanded', 'permuted'):
+                    if dst_storage != 'clone' and len(pa[0]) < 2:
+                        continue
+                    c = a.clone() if dst_storage == 'clone' else P.instantiate(pa, da, storage=dst_storage)
+                    b = P.instantiate(pb, db, offset=3)
+                    c.copy_(b)
+                    okk = eqn(c.to_dense(), y) and eqn(b.to_dense(), y) and eqn(a.to_dense(), x)
+                    if okk:
+                        # in-place operations on the copy must not reach the source, and vice versa
+                        c.neg_()
+                        okk = eqn(b.to_dense(), y) and eqn(c.to_dense(), -y)
+                    if okk:
+                        b.abs_().neg_()
+                        okk = eqn(c.to_dense(), -y)
+                    if not okk:
+                        break
                 if not okk:
-                    bad(r, 'mismatch', name, '%s: copy_ wrong or aliases its source' % desc, sub, key)
+                    bad(r, 'mismatch', name, '%s: copy_ (destination storage %s) is wrong or shares storage with its source' % (desc, dst_storage), sub, key)
                     continue
             elif name == 'x-project':
                 paxes, vaxes = P.build_axes(pb)
